@@ -15,6 +15,10 @@ NA = {
 PENDING = "static check designed in DESIGN.md section 3 but not built yet; not claimed until it exists"
 
 CHECKS = {
+ "C12": dict(level="proof", technique="path-sensitive symbolic interpretation of the dispatch ladders (CPUID/XCR0 bit-set facts) + ISA classification of all reachable code by re-assembly under GNU as -march restrictions + relocation ownership rules",
+   text="All 64 X_dispatch_init ladders are enumerated path by path over symbolic CPUID/XGETBV results (587 feasible paths; bit-set facts, no solver). For every path the bound candidate's entire reachable code (through direct and tail calls) must assemble under generic64 + the extensions that path established (AVX only with OSXSAVE+AVX+XCR0[2:1], AVX-512 bits only with XCR0[7:5]) + the pinned platform floor; entry points that share an object must take structurally identical decisions with the same family tag; each slot is written only by its own dispatcher, which is called only from its own mbinit, which is referenced only by the slot's initial value, and the stored value is a link-time address chosen by CPUID/XCR0 facts alone. Exhaustive over dispatchers, paths and reachable instructions.",
+   note="Trusted: binutils 2.40 opcode table (feature <-> encoding), its dependency closure as 'architecturally consistent'; LLVM MC decoding. Features no dispatcher tests (aes, pclmul, bmi, bmi2, ...) are platform preconditions and are listed per candidate in the evidence, not judged. Family tags are name based.",
+   ref="3/C12"),
  "C19": dict(level="proof", technique="abstract interpretation of object code (stack-pointer / callee-saved value domain over LLVM-MC lifted CFGs) with callee summaries",
    text="Every function of every object the real build flags produce (799 functions, ~580k instructions, nasm and gcc output alike) is interpreted over an abstract domain of entry values, stack-pointer offsets, aligned frames and a stack store, to a fixpoint over all paths: at every ret and tail jump rsp and rbx/rbp/r12-r15 hold their entry values; no instruction writes DF/MXCSR/x87-CW; no store reaches the return address or above; stack height agrees at joins; the 128 first-call trampolines additionally preserve every argument register and touch no vector register. Private-convention kernels are summarised and their callers checked with the summary. All paths, all exits: a proof of the property's register/stack clause for this build.",
    note="Trusted: LLVM 14 MC operand tables; SysV conformance of libc callees. Assumed (counted per function in the evidence): stores with an unknown index into a frame, or through non-stack pointers, do not hit register-save slots (that is C08's undecided bounds clause). Windows-only code is not assembled.",
